@@ -26,6 +26,15 @@ type Case struct {
 	Src   string
 	Plan  *plan.Plan
 	Runs  int
+	// Wrap: command (and its arguments) the next mrp is started under.
+	Wrap []string
+}
+
+// StraceKill is the wrapper that makes mrp (whichever of its threads gets
+// there first) die from SIGKILL at its n-th file-system or write system call.
+func StraceKill(n int) []string {
+	return []string{"strace", "-f", "-qq", "-o", "/dev/null", "-e", "trace=%file,write",
+		"-e", fmt.Sprintf("inject=%%file,write:signal=KILL:when=%d", n)}
 }
 
 // Record is one execution record written by stagebin.
@@ -95,6 +104,12 @@ func (c *Case) Start(extra ...string) (*Proc, error) {
 	}
 	args = append(args, extra...)
 	cmd := exec.Command(filepath.Join(c.Mroot, "bin", "mrp"), args...)
+	if len(c.Wrap) > 0 {
+		// run mrp under a wrapper (strace with fault injection); used once
+		w := append(append([]string{}, c.Wrap[1:]...), filepath.Join(c.Mroot, "bin", "mrp"))
+		cmd = exec.Command(c.Wrap[0], append(w, args...)...)
+		c.Wrap = nil
+	}
 	cmd.Dir = c.Dir
 	cmd.Env = append(os.Environ(), "PATH="+filepath.Join(c.Mroot, "bin")+":"+os.Getenv("PATH"), "MROPATH="+c.Dir, "MROFLAGS=", "MRO_DISABLE_SYNTAX_CHECKS=")
 	cmd.Stdout, cmd.Stderr = logf, logf
